@@ -48,6 +48,12 @@ type Job struct {
 	// ReplayCap: max number of path witnesses replayed natively (0 = all).
 	ReplayCap int
 	Timeout   time.Duration
+	Quiet     bool // do not log a line per job
+	// AllowDrops: substrings of explicit-drop reasons that are part of the stated
+	// bound (e.g. "on symbolic operand": regex/date/e-mail literals inside schema
+	// bodies are only followed on concrete values); such paths are counted as
+	// excluded, not as inconclusive.
+	AllowDrops []string
 }
 
 // Candidate is a potential violation found by the engine.
@@ -103,6 +109,8 @@ type JobResult struct {
 	Validated    int
 	Mismatches   []string
 	Aborted      int
+	Excluded     int
+	ExcludedWhy  []string
 	Inconclusive []string
 	Samples      []map[string]interface{}
 }
@@ -267,7 +275,18 @@ func (c *Ctx) RunJob(j Job) *JobResult {
 	jr.Stats = ex.Stats
 	if ex.Stats.Dropped > 0 {
 		for k, n := range ex.Stats.DropReasons {
-			jr.Inconclusive = append(jr.Inconclusive, fmt.Sprintf("%d x %s", n, k))
+			allowed := false
+			for _, a := range j.AllowDrops {
+				if strings.Contains(k, a) {
+					allowed = true
+				}
+			}
+			if allowed {
+				jr.Excluded += n
+				jr.ExcludedWhy = append(jr.ExcludedWhy, fmt.Sprintf("%d x %s", n, k))
+			} else {
+				jr.Inconclusive = append(jr.Inconclusive, fmt.Sprintf("%d x %s", n, k))
+			}
 		}
 	}
 	if ex.Stats.Incomplete {
@@ -278,7 +297,9 @@ func (c *Ctx) RunJob(j Job) *JobResult {
 			jr.Inconclusive = append(jr.Inconclusive, "vacuity: reach witness "+id+" never hit")
 		}
 	}
-	c.Log("job %-28s %s", j.Name, firstLine(ex.Stats.Summary()))
+	if !j.Quiet {
+		c.Log("job %-28s %s", j.Name, firstLine(ex.Stats.Summary()))
+	}
 	return jr
 }
 
@@ -425,7 +446,9 @@ func (c *Ctx) ValidatePaths(jr *JobResult) {
 				}
 			}
 		}
-		c.Log("job %-28s native replay: %d/%d path witnesses agree", j.Name, jr.Validated, len(jr.Paths))
+		if !j.Quiet || jr.Validated != len(jr.Paths) {
+			c.Log("job %-28s native replay: %d/%d path witnesses agree", j.Name, jr.Validated, len(jr.Paths))
+		}
 	}
 	// candidates: each in its own process (crashes, hangs, stack overflows)
 	for _, cand := range jr.Candidates {
@@ -625,7 +648,7 @@ func (c *Ctx) Finish(level string, assumptions []string, extra map[string]interf
 			"job": jr.Job.Name, "harness": jr.Job.Pkg + "." + jr.Job.Fn, "params": jr.Job.Params, "stubs": jr.Job.Stubs,
 			"paths": jr.Stats.Paths, "solver_queries": jr.Stats.Queries, "cache_hits": jr.Stats.CacheHits,
 			"sat": jr.Stats.Sat, "unsat": jr.Stats.Unsat, "unknown": jr.Stats.Unknown, "dropped": jr.Stats.Dropped,
-			"by_status": jr.Stats.ByStatus, "aborted_paths": jr.Aborted, "native_validated": jr.Validated, "native_replayed": len(jr.Paths),
+			"by_status": jr.Stats.ByStatus, "aborted_paths": jr.Aborted, "excluded_paths_outside_bound": jr.Excluded, "excluded_why": jr.ExcludedWhy, "native_validated": jr.Validated, "native_replayed": len(jr.Paths),
 			"interp_steps": jr.Stats.Steps, "solver_time_s": jr.Stats.SolverTime.Seconds(), "wall_s": jr.Stats.Wall.Seconds(),
 		})
 	}
